@@ -643,6 +643,8 @@ package geometry
 //@   ensures Points: movedOf(bsPoints(result), series.points, deltaX, deltaY)
 //@   ensures Index: IndexInv(result)
 //@   ensures Rect: !degenerate(series.points, series.closed) ==> bsRectOf(result) == bboxOf(bsPoints(result), len(bsPoints(result)))
+//@   ensures Ring: series.closed ==> RingInv(result)
+//@   ret use movedRingInv(result, series.points, deltaX, deltaY)
 //@   loop 0 invariant Range: 0 <= i && i <= len(series.points) && len(points) == len(series.points)
 //@   loop 0 invariant Done: forall j int :: (0 <= j && j < i) ==> ptAt(points, j) == trP(ptAt(series.points, j), deltaX, deltaY)
 //@   loop 0 invariant Frame: forall b *baseSeries :: old($alloc)[b] ==> (b.index == old(b.index) && b.indexKind == old(b.indexKind) && b.points == old(b.points) && b.closed == old(b.closed))
@@ -675,6 +677,51 @@ package geometry
 //@   requires line != nil ==> moveExactS(line.baseSeries.points, deltaX, deltaY)
 //@   ensures Nil: (result == nil) == (line == nil)
 //@   ensures Moved: line != nil ==> (lineMovedS(result, line, deltaX, deltaY) && !old($alloc)[result])
+
+//@ func seriesCopyPoints
+//@   props C12
+//@   requires SeriesInv(series)
+//@   ensures Copy: len(result) == sNpts(series) && (forall j int :: 0 <= j && j < len(result) ==> ptAt(result,j) == sPt(series,j))
+//@   loop 0 invariant 0 <= i && i <= len(points) && len(points) == sNpts(series)
+//@   loop 0 invariant forall j int :: 0 <= j && j < i ==> ptAt(points,j) == sPt(series,j)
+//@   loop 0 decreases len(points) - i
+
+// a ring re-created by Move from in-domain translated points satisfies the ring invariant again
+//@ lemma movedRingInv(n Series, ps []Point, dx real, dy real)
+//@   props C12
+//@   requires isBS(n) && IndexInv(n) && bsNpts(n) >= 0 && bsClosed(n) && movedOf(bsPoints(n), ps, dx, dy) && moveExactS(ps, dx, dy)
+//@   requires !degenerate(bsPoints(n), true) ==> bsRectOf(n) == bboxOf(bsPoints(n), len(bsPoints(n)))
+//@   ensures RingInv(n)
+//@   use moveExactElim(ps, bsPoints(n), dx, dy)
+//@   use forall j int :: bboxCovers(bsPoints(n), len(bsPoints(n)), j)
+//@   have Series: SeriesInv(n) && sClosed(n)
+//@   have Ends: forall j int :: 0 <= j && j < sNseg(n) ==> (sSeg(n,j).A == ptAt(bsPoints(n),j) && sSeg(n,j).B == ptAt(bsPoints(n), ite(j == len(bsPoints(n))-1, 0, j+1)))
+//@   have DomBody: forall j int :: 0 <= j && j < sNseg(n) ==> inDom(sSeg(n,j).A) && inDom(sSeg(n,j).B)
+//@   have Dom: seriesInDomSeg(n)
+//@   have Cover: forall j int :: 0 <= j && j < sNseg(n) ==> (rectHas(sRect(n), sSeg(n,j).A) && rectHas(sRect(n), sSeg(n,j).B))
+
+//@ spec func ringMoveOK(s Series, dx real, dy real) bool opaque { isBS(s) && bsClosed(s) && moveExactS(bsPoints(s), dx, dy) }
+//@ spec func ringMovedS(n Series, s Series, dx real, dy real) bool opaque { n != nil && isBS(n) && RingInv(n) && movedOf(bsPoints(n), bsPoints(s), dx, dy) }
+//@ func Poly.Move
+//@   props C12
+//@   requires poly != nil ==> PolyInv(poly)
+//@   requires (poly != nil && poly.Exterior != nil) ==> ringMoveOK(poly.Exterior, deltaX, deltaY)
+//@   requires poly != nil ==> (forall h int :: 0 <= h && h < len(poly.Holes) ==> ringMoveOK(poly.Holes[h], deltaX, deltaY))
+//@   ensures Nil: (result == nil) == (poly == nil)
+//@   ensures Fresh: poly != nil ==> !old($alloc)[result]
+//@   ensures Inv: poly != nil ==> PolyInv(result)
+//@   ensures Ext: poly != nil ==> ((result.Exterior == nil) == (poly.Exterior == nil))
+//@   ensures ExtMoved: (poly != nil && poly.Exterior != nil) ==> ringMovedS(result.Exterior, poly.Exterior, deltaX, deltaY)
+//@   ensures NHoles: (poly != nil && poly.Exterior != nil) ==> len(result.Holes) == len(poly.Holes)
+//@   ensures HolesMoved: (poly != nil && poly.Exterior != nil) ==> (forall h int :: 0 <= h && h < len(poly.Holes) ==> ringMovedS(result.Holes[h], poly.Holes[h], deltaX, deltaY))
+//@   loop 0 invariant npoly != nil && npoly != poly && !old($alloc)[npoly] && len(npoly.Holes) == len(poly.Holes) && ringMovedS(npoly.Exterior, poly.Exterior, deltaX, deltaY)
+//@   loop 0 invariant forall h int :: 0 <= h && h < $i ==> ringMovedS(npoly.Holes[h], poly.Holes[h], deltaX, deltaY)
+//@   loop 0 invariant Frame: forall P *Poly :: old($alloc)[P] ==> (P.Exterior == old(P.Exterior) && P.Holes == old(P.Holes))
+//@   loop 0 invariant Pre: forall h int :: 0 <= h && h < len(poly.Holes) ==> ringMoveOK(poly.Holes[h], deltaX, deltaY)
+//@   loop 0 assert HoleOK: ringMoveOK(poly.Holes[$i], deltaX, deltaY)
+//@   stmt poly.go:"nseries := makeSeries(" assert OnlyBaseSeries: false
+//@   ret have HolesInv: (poly != nil && poly.Exterior != nil) ==> (forall h int :: 0 <= h && h < len(result.Holes) ==> (result.Holes[h] != nil && RingInv(result.Holes[h])))
+//@   ret have HolesInvO: (poly != nil && poly.Exterior != nil) ==> (forall h int :: 0 <= h && h < polyNHoles(result) ==> (polyHole(result,h) != nil && RingInv(polyHole(result,h))))
 
 //@ func baseSeries.Index
 //@   props C12 C04
